@@ -3,15 +3,21 @@
 #pragma once
 #include <boost/asio.hpp>
 #include <functional>
+#include <map>
 #include <string>
 #include <vector>
 #include <variant>
 #include "hexutil.hpp"
 
 namespace verif {
-struct sim_world {                       // one per harness: event log + the currently pending I/O of every stream generation
+struct sim_pending {                     // pending I/O of one simulated stream; owned by the world (as a reactor would), not by the stream
+    boost::asio::any_completion_handler<void(boost::system::error_code, size_t)> read, write;
+    boost::asio::any_completion_handler<void(boost::system::error_code)> shutdown;
+};
+struct sim_world {                       // one per harness: event log + the currently pending I/O of every stream
     std::vector<std::string> log;
     int next_stream_id = 0;
+    std::map<int, sim_pending> pending;
     void ev(const std::string& s) { log.push_back(s); }
 };
 inline sim_world& world() { static sim_world w; return w; }
@@ -35,8 +41,9 @@ public:
     stream_context_type& _ctx;
     bool _open = false;
     int _id;
-    rw_handler _pending_read, _pending_write;
-    sh_handler _pending_shutdown;
+    rw_handler& pr() { return verif::world().pending[_id].read; }
+    rw_handler& pw() { return verif::world().pending[_id].write; }
+    sh_handler& ps() { return verif::world().pending[_id].shutdown; }
     asio::mutable_buffer _read_buf;
     size_t _write_size = 0;
     std::string _hosts;
@@ -60,7 +67,7 @@ public:
     template <typename CompletionToken>
     void async_shutdown(CompletionToken&& token) {
         auto init = [](auto handler, self_type& self) {
-            self._pending_shutdown = sh_handler(std::move(handler));
+            self.ps() = sh_handler(std::move(handler));
             verif::world().ev("shut S" + std::to_string(self._id));
         };
         return asio::async_initiate<CompletionToken, void(error_code)>(init, token, std::ref(*this));
@@ -69,7 +76,7 @@ public:
     template <typename BufferType, typename CompletionToken>
     decltype(auto) async_read_some(const BufferType& buffer, duration wait_for, CompletionToken&& token) {
         auto init = [](auto handler, self_type& self, const BufferType& buffer, duration wait_for) {
-            self._pending_read = rw_handler(std::move(handler));
+            self.pr() = rw_handler(std::move(handler));
             self._read_buf = asio::mutable_buffer(buffer);
             auto ms = std::chrono::duration_cast<std::chrono::milliseconds>(wait_for).count();
             std::string to = wait_for == duration::max() ? "inf" : std::to_string(ms);
@@ -81,7 +88,7 @@ public:
     template <typename BufferType, typename CompletionToken>
     decltype(auto) async_write(const BufferType& buffer, CompletionToken&& token) {
         auto init = [](auto handler, self_type& self, const BufferType& buffers) {
-            self._pending_write = rw_handler(std::move(handler));
+            self.pw() = rw_handler(std::move(handler));
             std::string s = "wr S" + std::to_string(self._id); size_t total = 0;
             for (const auto& b : buffers) { s += " " + tohex(std::string((const char*)b.data(), b.size())); total += b.size(); }
             self._write_size = total;
@@ -92,22 +99,22 @@ public:
 
     // ---- script side
     bool complete_write(error_code ec) {
-        if (!_pending_write) return false;
-        auto h = std::move(_pending_write); size_t n = ec ? 0 : _write_size;
+        if (!pw()) return false;
+        auto h = std::move(pw()); size_t n = ec ? 0 : _write_size;
         asio::post(_ex, [h = std::move(h), ec, n]() mutable { std::move(h)(ec, n); });
         return true;
     }
     bool complete_read(error_code ec, const std::string& bytes) {
-        if (!_pending_read) return false;
+        if (!pr()) return false;
         if (bytes.size() > _read_buf.size()) return false;
         std::memcpy(_read_buf.data(), bytes.data(), bytes.size());
-        auto h = std::move(_pending_read); size_t n = bytes.size();
+        auto h = std::move(pr()); size_t n = bytes.size();
         asio::post(_ex, [h = std::move(h), ec, n]() mutable { std::move(h)(ec, n); });
         return true;
     }
     bool complete_shutdown(error_code ec) {
-        if (!_pending_shutdown) return false;
-        auto h = std::move(_pending_shutdown);
+        if (!ps()) return false;
+        auto h = std::move(ps());
         asio::post(_ex, [h = std::move(h), ec]() mutable { std::move(h)(ec); });
         return true;
     }
